@@ -71,8 +71,9 @@ func (h *verifC01) writev(maxBufs, maxLen int) {
 }
 
 func (h *verifC01) sendfile(maxLen int) {
-	size := 1 + verifChoose("fsize", maxLen)
-	off := verifChoose("foff", size)
+	// the file may be empty and the read position may be at its end
+	size := verifChoose("fsize", maxLen+1)
+	off := verifChoose("foff", size+1)
 	data := verifBytes("file", size)
 	f := vkNewFile(data, int64(off))
 	want := int64(0)
